@@ -70,7 +70,7 @@ CLAIMED = {
              "ServerHello, from the ChangeCipherSpec records on: each direction's ChangeCipherSpec, then its Finished and application records in any mix, the directions "
              "interleaved in any way -- exactly the application contents are exported as application data, in order; handshake records and ChangeCipherSpec only as metadata). "
              "ServerHello: C01_server_hello_parsed (random, suite, compression, extension dictionary and selected version are exactly what an RFC-encoded ServerHello carries, "
-             "with any session id, any extensions or none, followed by anything in the record), C01_extension_walk. "
+             "with any session id, any extensions or none, followed by anything in the record), C01_extension_walk, C01_tls13_keys_installed. "
              "Keys are C15's theorems, record delivery C05's, output concatenation C06's. NOT proved: the ClientHello side (a fixed slice) and key lookup end to end, the session-level "
              "bookkeeping for the CBC and RC4 classes, TLS 1.3 server data before the client Finished and post-handshake messages: decided by the independent reference sender "
              "(all versions x all ~200 table suites x handshake shapes x histories x segmentations) on the implementation and by byte-exact correspondence of the session model.",
